@@ -54,6 +54,7 @@ type Type struct {
 	RawKey   string // KRaw: type identity (two spellings of one type share it)
 	RawValue string // KRaw: an expression of the type
 	Partial bool    // KLeaf/KAgg: implements only the explicitly declared methods of its Impls, not those of embedded interfaces
+	Bare    bool    // KIface: declares no method of its own: its method set is exactly that of its embedded interfaces
 }
 
 func Ptr(t *Type) *Type   { return &Type{Kind: KPtr, Elem: t} }
